@@ -2,6 +2,7 @@ package dbx
 
 import (
 	"fmt"
+	"math/big"
 	"sort"
 	"strconv"
 	"strings"
@@ -16,7 +17,7 @@ import (
 type oval struct {
 	kind string // s, n, b, o, a
 	s    string
-	n    int64 // thousandths
+	n    *big.Int // thousandths, exact (nil = 0)
 	b    bool
 	o    map[string]oval
 	a    []string
@@ -84,10 +85,17 @@ func parsePrimTok(tok string) (oval, bool) {
 		return oval{kind: "s", s: v}, true
 	case 'i':
 		n, err := strconv.ParseInt(v, 10, 64)
-		return oval{kind: "n", n: n * 1000}, err == nil
-	case 'f', 'n':
-		n, err := strconv.ParseInt(v, 10, 64)
-		return oval{kind: "n", n: n}, err == nil
+		return oval{kind: "n", n: IntMilli(n)}, err == nil
+	case 'f':
+		// a float64 field / JSON number written from a float64: the value held is the nearest float64
+		n, ok := MilliTok(v)
+		if !ok {
+			return oval{}, false
+		}
+		return oval{kind: "n", n: FloatMilli(MilliFloat(n))}, true
+	case 'n':
+		n, ok := MilliTok(v)
+		return oval{kind: "n", n: n}, ok
 	case 'b':
 		return oval{kind: "b", b: v == "1"}, v == "0" || v == "1"
 	}
@@ -122,12 +130,19 @@ func parseValTok(tok string) (oval, bool) {
 	return parsePrimTok(tok)
 }
 
+func (v oval) num() *big.Int {
+	if v.n == nil {
+		return new(big.Int)
+	}
+	return v.n
+}
+
 func showOval(v oval) string {
 	switch v.kind {
 	case "s":
 		return "s:" + v.s
 	case "n":
-		return fmt.Sprintf("n:%d", v.n)
+		return "n:" + v.num().String()
 	case "b":
 		return "b:" + b01(v.b)
 	case "o":
@@ -277,7 +292,7 @@ func resolve(fs map[string]oval, sel string) (oval, bool) {
 			}
 		case "a":
 			if seg == "#" {
-				v = oval{kind: "n", n: int64(len(v.a)) * 1000}
+				v = oval{kind: "n", n: IntMilli(int64(len(v.a)))}
 			} else {
 				n, err := strconv.Atoi(seg)
 				if err != nil || n < 0 || n >= len(v.a) {
@@ -300,7 +315,21 @@ const (
 	cOpen // documentation leaves it open (operator vs. field type)
 )
 
-func cmpNum(op string, a, b int64) bool {
+func cmpSign(op string, c int) bool {
+	switch op {
+	case "eq":
+		return c == 0
+	case "gt":
+		return c > 0
+	case "ge":
+		return c >= 0
+	case "lt":
+		return c < 0
+	}
+	return c <= 0
+}
+
+func cmpFloat(op string, a, b float64) bool {
 	switch op {
 	case "eq":
 		return a == b
@@ -333,21 +362,30 @@ func evalLeaf(fs map[string]oval, sel, op, arg string) condVerdict {
 		if v.kind != "n" {
 			return cOpen
 		}
-		if v.n%1000 != 0 {
+		q, rem := new(big.Int).QuoRem(v.num(), big1000, new(big.Int))
+		if rem.Sign() != 0 {
 			return cOpen // integer operator on a fractional number
 		}
-		n, _ := strconv.ParseInt(arg, 10, 64)
+		n, err := strconv.ParseInt(arg, 10, 64)
 		// the typed record declares F as float: an integer operator on it is outside "Req. Type"
-		if sel == "F" {
+		if sel == "F" || err != nil {
 			return cOpen
 		}
-		return tf(cmpNum(op, v.n/1000, n))
+		if !q.IsInt64() {
+			return cOpen // a JSON number beyond the int64 range under an integer operator: not decided by the documentation
+		}
+		// integer operators compare integers: exactly, over the whole int64 range
+		return tf(cmpSign(op, q.Cmp(big.NewInt(n))))
 	case "feq", "fgt", "fge", "flt", "fle":
 		if v.kind != "n" || sel != "F" {
 			return cOpen
 		}
-		n, _ := strconv.ParseInt(arg, 10, 64)
-		return tf(cmpNum(op[1:], v.n, n))
+		n, ok := MilliTok(arg)
+		if !ok {
+			return cOpen
+		}
+		// float operators compare float64 values: the stored number and the operand as float64
+		return tf(cmpFloat(op[1:], MilliFloat(v.num()), MilliFloat(n)))
 	case "sa", "co", "sw", "ew", "in", "re":
 		if v.kind != "s" {
 			return cOpen
